@@ -116,3 +116,130 @@ def run(ck):
     ok = any(isinstance(c, ast.Call) and dotted(c.func) == "self.symbols_mem.write" and [norm(a) for a in c.args] == ["dst.ptr", "src"] for c in walk_body(wr)) and \
         any(isinstance(n, ast.Assign) and norm(n.targets[0]) == "self.symbols_id[dst]" and norm(n.value) == "src" for n in walk_body(wr))
     ck.ob("R4", "SymbolMngr.write", ok, m.where(wr), "write must store identifiers in symbols_id and memory through symbols_mem.write(dst.ptr, src)")
+
+    # ---------------------------------------------------------------- R5 the export walk covers every stored byte once
+    _r5_export_partition(ck, m)
+
+
+class _Opaque(object):
+    pass
+
+
+def _ev(node, env):
+    """Tiny evaluator for the index arithmetic of MemArray.memory(): ints, names, + -, len(), subscripts of the
+    offset list, and the two part-count calls (classified by their arguments). Anything else is opaque."""
+    if isinstance(node, ast.Constant):
+        return node.value
+    if isinstance(node, ast.Name):
+        return env.get(node.id, _Opaque())
+    if isinstance(node, ast.Tuple):
+        return tuple(_ev(e, env) for e in node.elts)
+    if isinstance(node, ast.UnaryOp) and isinstance(node.op, ast.USub):
+        v = _ev(node.operand, env)
+        return -v if isinstance(v, int) else _Opaque()
+    if isinstance(node, ast.BinOp) and isinstance(node.op, (ast.Add, ast.Sub)):
+        a, b = _ev(node.left, env), _ev(node.right, env)
+        if isinstance(a, int) and isinstance(b, int):
+            return a + b if isinstance(node.op, ast.Add) else a - b
+        return _Opaque()
+    if isinstance(node, ast.Call):
+        if callee_attr(node) == "len" and node.args and isinstance(_ev(node.args[0], env), list):
+            return len(_ev(node.args[0], env))
+        if callee_attr(node) == "_get_variable_parts" and len(node.args) >= 2:
+            start = _ev(node.args[0], env)
+            fwd = True
+            if len(node.args) > 2:
+                fwd = _ev(node.args[2], env)
+            for kw in node.keywords:
+                if kw.arg == "forward":
+                    fwd = _ev(kw.value, env)
+            n = len(env["__offsets"])
+            if start == 0 and fwd is True:
+                return env["__H"]
+            if start == n - 1 and fwd is False:
+                return env["__T"]
+            if isinstance(start, int) and fwd is True:
+                return ("parts-from", start)
+            return _Opaque()
+        if callee_attr(node) == "_build_value_at_offset" and len(node.args) == 4:
+            env.setdefault("__built", []).append((_ev(node.args[1], env), _ev(node.args[3], env)))
+            return (_Opaque(), _Opaque())
+        return _Opaque()
+    if isinstance(node, ast.Subscript):
+        base = _ev(node.value, env)
+        idx = _ev(node.slice, env)
+        if isinstance(base, list) and isinstance(idx, int) and -len(base) <= idx < len(base):
+            return base[idx]
+        return _Opaque()
+    return _Opaque()
+
+
+def _r5_export_partition(ck, m):
+    ck.rule("R5", "MemArray.memory() walks every stored offset exactly once: the wrapped variable takes the first H and the last T "
+                  "offsets, the walk covers [H, len - T)", floor=1)
+    fn = m.func("MemArray.memory")
+    special = None
+    for n in walk_body(fn):
+        if isinstance(n, ast.If) and sum(1 for c in walk_local(n) if isinstance(c, ast.Call) and callee_attr(c) == "_get_variable_parts") == 2 \
+                and not any(isinstance(x, ast.If) and x is not n and sum(1 for c in walk_local(x) if isinstance(c, ast.Call) and callee_attr(c) == "_get_variable_parts") == 2
+                            for x in walk_local(n)):
+            special = n
+    loops = [n for n in walk_body(fn) if isinstance(n, ast.While)]
+    ck.need(special is not None and loops, "MemArray.memory: wrap-around special case or the walk loop not found")
+    lp = loops[0]
+    t = cmp_parts(lp.test)
+    ck.need(t is not None and t[1] == "<" and isinstance(t[0], ast.Name) and isinstance(t[2], ast.Name), "MemArray.memory: walk loop is not `while <index> < <limit>`")
+    idx_name, lim_name = t[0].id, t[2].id
+    # straight-line prefix (before the special case) + the special-case body
+    pre = []
+    for st in fn.body:
+        if any(x is special for x in ast.walk(st)):
+            break
+        pre.append(st)
+    bad = []
+    cases = 0
+    for n in range(3, 7):
+        for h in range(1, n):
+            for tl in range(1, n - h + 1):
+                env = {"__offsets": None, "__H": h, "__T": tl}
+                offs = [100 + i for i in range(n)]
+                env["__offsets"] = offs
+                ko = None
+                for st in pre + list(special.body):
+                    if isinstance(st, ast.Assign):
+                        if isinstance(st.value, ast.Call) and callee_attr(st.value) == "sorted":
+                            ko = st.targets[0].id
+                            env[ko] = offs
+                            continue
+                        v = _ev(st.value, env)
+                        for tg in st.targets:
+                            if isinstance(tg, ast.Name):
+                                env[tg.id] = v
+                            elif isinstance(tg, ast.Tuple) and isinstance(v, tuple) and len(v) == len(tg.elts):
+                                for e, vv in zip(tg.elts, v):
+                                    if isinstance(e, ast.Name):
+                                        env[e.id] = vv
+                            elif isinstance(tg, ast.Tuple):
+                                for e in tg.elts:
+                                    if isinstance(e, ast.Name):
+                                        env[e.id] = _Opaque()
+                cases += 1
+                built = env.get("__built", [])
+                got = (env.get(idx_name), env.get(lim_name), built[-1] if built else None)
+                want = (h, n - tl, (offs[n - tl], h + tl))
+                if got != want and len(bad) < 3:
+                    bad.append("n=%d head=%d tail=%d: walk [%r, %r) first element %r; expected [%d, %d) and (offset, parts) %r"
+                               % (n, h, tl, got[0], got[1], got[2], want[0], want[1], want[2]))
+    ck.ob("R5", "MemArray.memory:wrap-partition", not bad, m.where(special),
+          "with a value wrapped over the end of the address space (%d shapes folded) the walk does not cover the remaining offsets exactly: %s"
+          % (cases, "; ".join(bad)))
+    # the walk advances by the number of parts it just output
+    adv = [s for s in lp.body if isinstance(s, ast.AugAssign) and isinstance(s.op, ast.Add) and norm(s.target) == idx_name]
+    pn = [s for s in lp.body if isinstance(s, ast.Assign) and isinstance(s.value, ast.Call) and callee_attr(s.value) == "_get_variable_parts"]
+    ok = bool(adv) and bool(pn) and norm(adv[0].value) == norm(pn[0].targets[0]) and norm(pn[0].value.args[0]) == idx_name and len(pn[0].value.args) == 2
+    built = [c for c in walk_local(lp) if isinstance(c, ast.Call) and callee_attr(c) == "_build_value_at_offset"]
+    ok = ok and bool(built) and norm(built[0].args[3]) == norm(pn[0].targets[0])
+    ck.ob("R5", "MemArray.memory:walk-advance", ok, m.where(lp), "the walk must output `parts` bytes from the current index and advance by the same count")
+    ys = [n for n in walk_body(fn) if isinstance(n, ast.Yield)]
+    ok = any(norm(y.value) == "first_element" for y in ys)
+    ck.ob("R5", "MemArray.memory:wrapped-yielded", ok, m.where(fn), "the merged wrapped value is never output")
